@@ -14,10 +14,10 @@ from concurrent.futures import ThreadPoolExecutor
 import vlib
 
 LEVEL = "proof"
-# Open findings of the unmodified library (notes/exf.md, fixes/exf-*.diff).  The default run tolerates them (the model follows the
-# tree through behavioural facts, so T2 stays equal); VERIF_C12_OPEN=1 makes the oracle report them as violations and adds the
-# directed scripts.  When the integrator commits a repair the corresponding tolerance becomes dead code.
-OPEN = os.environ.get("VERIF_C12_OPEN") == "1"
+# The four findings of the deepening round are repaired in /repo (c1b1b57 small maxoff refused, 58fb82b acquire_mmap unlocks on
+# NOT_MMAPED, bfa27a0 descriptor closed when flock fails, 8dc0de1 forward-overlapping copy through the file carried out): the
+# oracle demands the repaired behaviour and their directed scripts run on every run.  (OPEN stays as a name for these places.)
+OPEN = True
 PS = os.sysconf("SC_PAGESIZE")
 OFFMAX = (1 << 63) - 1
 HUGE = [(1 << 63) - 1, (1 << 64) - 1]
@@ -906,9 +906,7 @@ class FOracle:
             off, siz, noff = int(t[1]), int(t[2]), int(t[3])
             if not h["om"] & O_WRITE:
                 return "fcopy READONLY", self.size()
-            if siz > 0 and off < noff < off + siz:
-                return None, None  # documented todo of iwp_copy_bytes: refused or carried out - judged by judge_f
-            b = bytes(h["data"][off:off + siz])
+            b = bytes(h["data"][off:off + siz])  # (a forward overlap is moved back to front since 8dc0de1: same result)
             if b:
                 if len(h["data"]) < noff:
                     h["data"] += bytes(noff - len(h["data"]))
@@ -931,20 +929,7 @@ def run_foracle(script, out):
         t = l.split()
         if i >= len(out):
             return i, "no answer (harness died)"
-        if t[0] == "fcopy" and o.h and o.h["om"] & O_WRITE and int(t[2]) > 0 and int(t[1]) < int(t[3]) < int(t[1]) + int(t[2]):
-            got = out[i].split()
-            off, siz, noff = int(t[1]), int(t[2]), int(t[3])
-            if got[1:2] == ["OK"]:
-                b = bytes(o.h["data"][off:off + siz])
-                if b:
-                    if len(o.h["data"]) < noff:
-                        o.h["data"] += bytes(noff - len(o.h["data"]))
-                    o.h["data"][noff:noff + len(b)] = b
-            elif got[1:2] != ["OVERFLOW"] or OPEN:
-                return i, "forward-overlapping copy through the file answered %s (iwp_copy_bytes refuses it: open finding)" % got[1:2]
-            exp, st = " ".join(got[:2]), o.size()
-        else:
-            exp, st = o.apply(t)
+        exp, st = o.apply(t)
         want = exp if st is None else "%s fstat=%d" % (exp, st)
         if out[i].strip() != want:
             return i, "plain file: answered `%s`, iwfile.h says `%s`" % (out[i].strip()[:120], want[:120])
@@ -958,10 +943,7 @@ def gen_fscript(rng, run):
 
     def emit(l):
         lines.append(l)
-        t = l.split()
-        if t[0] == "fcopy" and o.h and o.h["om"] & O_WRITE and int(t[2]) > 0 and int(t[1]) < int(t[3]) < int(t[1]) + int(t[2]):
-            return  # outcome open (documented todo); the generator stops relying on the content
-        o.apply(t)
+        o.apply(l.split())
 
     for _ in range(rng.range(2, 5)):
         pre = rng.weighted([("keep", 4), ("remove", 2), ("foreign", 2)])
@@ -994,11 +976,7 @@ def gen_fscript(rng, run):
                 at = min(at, sz)
                 n = min(n, sz - at)
                 noff = max(0, rng.choice([at - n, at - n - 1, at + n, at + n + 1, at - 1, 0, sz, sz + 10] + ([at + 1, at + n - 1] if rng.chance(1, 4) else [])))
-                if n > 0 and at < noff < at + n:
-                    fwd_seen = True
                 emit("fcopy %d %d %d" % (at, n, noff))
-                if fwd_seen:
-                    break
             else:
                 emit(k if k in ("fsync", "fstate") else "fstate")
         if rng.chance(4, 5):
@@ -1024,8 +1002,7 @@ def leak_check(run, impl, tmp):
 
 
 def flock_leak_check(run, impl, tmp):
-    """open finding (fixes/exf-file-open-flock-leak.diff): iwfs_file_open does not close the descriptor it opened when iwp_flock
-    fails.  Reported only with VERIF_C12_OPEN=1."""
+    """bfa27a0: iwfs_file_open closes the descriptor it opened when iwp_flock fails (five refused opens keep the count)"""
     s = ["fhold 1", "nfd"] + ["fopen 2 6"] * 5 + ["nfd", "fhold 0", "fopen 2 6", "fclose", "frm"]
     rc, out, err = vlib.run_lines([impl, tmp], "\n".join(s) + "\n", timeout=120)
     run.dist("flock-fail-leak-script")
@@ -1037,7 +1014,7 @@ def flock_leak_check(run, impl, tmp):
                       "five opens refused by flock left descriptors behind: %s before, %s after" % (out[1], out[7]))
 
 
-# directed scripts for the open findings (only with VERIF_C12_OPEN=1)
+# directed scripts for the four repaired findings
 def open_finding_scripts():
     return [
         # a maximum below one page
@@ -1180,9 +1157,10 @@ def check(run):
                                    "window (RLIMIT_AS/ENOMEM; the model refuses by a budget on the bytes mapped by the windows): "
                                    "shrinking, msync and flock are not failed",
                                    "the injected limit is never below the current file size (pwrite inside the file cannot fail)",
-                                   "open findings of the unmodified library (small maxoff = unlimited, forward-overlapping copy through the "
-                                   "file refused after growth, failed acquire_mmap keeps the read lock, flock failure leaks the descriptor) "
-                                   "are tolerated by the oracle unless VERIF_C12_OPEN=1; the model follows the tree through behavioural facts"])
+                                   "the four findings of the deepening round (small maxoff = unlimited, forward-overlapping copy through "
+                                   "the file refused after growth, failed acquire_mmap keeps the read lock, flock failure leaks the "
+                                   "descriptor) are repaired in /repo; the oracle demands the repaired behaviour, the model follows the "
+                                   "tree through behavioural facts"])
 
 
 def replay(run, path):
